@@ -8,7 +8,7 @@
    out by the C05_<eco>_*_unfold theorems; C05_<eco>_abbrev for the self-oracle abbreviations).
    Unless noted the version layer is an ARBITRARY oracle (vok = NewVersion accepts, vcmp =
    Compare on texts); where the Go code reads fields of parsed versions the theorem is stated for
-   the model's own version layer instead (cargo: svok / svcmp, conan: m_vok / m_vcmp; tied to the
+   the model's own version layer instead (cargo: svok / svcmp, conan: m_vok / m_vcmp, gem: self_ok / self_cmp; tied to the
    ecosystem entry by C05_cargo_entry_self resp. definitionally).  Hypotheses [vok (...) = true]
    on desugared bounds say that the synthesized bound text is a valid version; numeric side
    conditions (< two63 = 2^63) exclude int64 overflow in "+1".
@@ -32,6 +32,15 @@
              [base, caret_upper).  REFUTED for ^0.0.Z: caret_upper [0;0;Z] = [0;1], i.e. the
              range is [0.0.Z, 0.1) where Conan documents [0.0.Z, 0.0.(Z+1)) (finding
              F-conan-caret-00z, pinned by a test of the library); ^0 has no upper bound.
+   gem       ~> on numeric bases of any length t, for the model's own version layer (self_ok /
+             self_cmp, C05_gem_abbrev): probes with non-negative numeric segments are contained
+             iff base <= v and the numeric segments of v are below [bump t] (t with its
+             last-but-one component incremented and the last dropped; ~> X is [X, X+1));
+             C05_gem_tuples is the same for numeric probes as the interval
+             [dots t, dots (bumpN t)) of Compare.  Recorded deviations: a pre-release of the
+             upper bound is excluded by the segment test although Compare places it inside
+             (C05_gem_pess_excludes_prerelease_of_bump - which is what RubyGems documents); a
+             pre-release BASE pins all its numeric segments (C05_gem_finding_pess_prerelease_bound).
    hex       ~> X.Y.Z[-pre] is [base, X.(Y+1).0) and ~> X.0 is [X.0, (X+1).0.0) as documented.
              REFUTED for ~> X.Y with Y > 0: the upper bound is X.(Y+1).0 (C05_hex_pess_xy)
              where Hex documents (X+1).0.0 (finding F-hex-pessimistic-minor, pinned by a test
@@ -43,8 +52,7 @@
              (C05_nuget_inclusive_half_open_rejected, C05_nuget_empty_interval_rejected).
    maven     all bracket forms with optional blanks around the bounds; a bare version is the
              exact match.  (Maven's Compare is not transitive, finding F-maven-order-cycle; the
-             theorems here do not depend on any law of vcmp.)
-   gem: added when its model is merged. *)
+             theorems here do not depend on any law of vcmp.) *)
 
 From Verif.Base Require Import Bytes BytesFacts GoNum Ord.
 From Verif.Eco Require Import RangeCore RangeCoreFacts Iface VLayer VLayerFacts.
@@ -55,7 +63,8 @@ From Verif.Eco.Cargo Require Version VersionFacts Range RangeFacts Entry.
 From Verif.Eco.Composer Require Version VersionFacts Range RangeFacts Entry.
 From Verif.Eco.Conan Require Version VersionFacts Range RangeFacts Entry.
 From Verif.Eco.Cran Require Version VersionFacts Range Entry.
-From Verif.Eco.Debian Require Version VersionFacts Range RangeFacts Entry SpecFacts.
+From Verif.Eco.Debian Require Version VersionFacts Range RangeFacts Entry.
+From Verif.Eco.Gem Require Version VersionFacts Range RangeFacts Entry.
 From Verif.Eco.Gentoo Require Version VersionFacts Range RangeFacts Entry.
 From Verif.Eco.Github Require Version VersionFacts Range RangeFacts Entry.
 From Verif.Eco.Golang Require Version VersionFacts Range RangeFacts Entry.
@@ -66,7 +75,7 @@ From Verif.Eco.Npm Require Version VersionFacts Range RangeFacts Entry.
 From Verif.Eco.Nuget Require Version VersionFacts Range RangeFacts Entry.
 From Verif.Eco.Pypi Require Version VersionFacts Range RangeFacts Entry.
 From Verif.Eco.Rpm Require Version VersionFacts Range RangeFacts Entry.
-From Verif.Eco.Semver Require Version VersionFacts Range RangeFacts Entry SpecFacts.
+From Verif.Eco.Semver Require Version VersionFacts Range RangeFacts Entry.
 
 
 (* npm *)
@@ -318,7 +327,8 @@ Theorem C05_cargo_wildcard_major :
   forall (x : N) (v : bytes) (fv : Cargo.Version.core),
   (x < two63)%N ->
   Cargo.Range.fields v = Some fv ->
-  Cargo.Range.r_contains Cargo.RangeFacts.svok Cargo.RangeFacts.svcmp (dec x ++ $".*") v =
+  Cargo.Range.r_contains Cargo.RangeFacts.svok Cargo.RangeFacts.svcmp (dec x ++ $".*")
+    v =
   Some
     (Cargo.RangeFacts.in_interval fv (Cargo.VersionFacts.mkc x 0 0 [] [])
        (Cargo.RangeFacts.upper_caret 1 (Cargo.VersionFacts.mkc x 0 0 [] []))).
@@ -367,8 +377,9 @@ Theorem C05_cargo_over_long_base_accepted :
     $"1.9.0" = Some true /\
   Cargo.Range.r_contains Cargo.RangeFacts.svok Cargo.RangeFacts.svcmp $"~1.2.3.x"
     $"1.2.9" = Some true /\
-  Cargo.Range.r_contains Cargo.RangeFacts.svok Cargo.RangeFacts.svcmp $"^1.2.3.gar-bage"
-    $"1.2.3" = Some true.
+  Cargo.Range.r_contains Cargo.RangeFacts.svok Cargo.RangeFacts.svcmp
+    $"^1.2.3.gar-bage" $"1.2.3" = 
+  Some true.
 Proof. exact Cargo.RangeFacts.over_long_base_accepted. Qed.
 Print Assumptions C05_cargo_over_long_base_accepted.
 
@@ -744,6 +755,127 @@ Theorem C05_conan_caret_zero_contains_all :
     (Conan.RangeFacts.numv tv) = Some true.
 Proof. exact Conan.RangeFacts.caret_zero_contains_all. Qed.
 Print Assumptions C05_conan_caret_zero_contains_all.
+
+(* gem *)
+
+Theorem C05_gem_abbrev :
+  Gem.RangeFacts.self_ok = self_vok Gem.Entry.entry /\
+  Gem.RangeFacts.self_cmp = self_vcmp Gem.Entry.entry /\
+  (forall vok vcmp r v, r_contains Gem.Entry.r vok vcmp r v = Gem.Range.r_contains vok vcmp r v).
+Proof. repeat split. Qed.
+Print Assumptions C05_gem_abbrev.
+
+Theorem C05_gem_pess_parse :
+  forall (vok : bytes -> bool) (vcmp : bytes -> bytes -> comparison) (a v : bytes),
+  Gem.RangeFacts.bound_scope a = true ->
+  vok a = true ->
+  vok v = true ->
+  Gem.Range.r_contains vok vcmp (Gem.Range.pess ++ a) v = Some (Gem.Range.sat_pessimistic vcmp v a).
+Proof. exact Gem.RangeFacts.gem_pess_parse. Qed.
+Print Assumptions C05_gem_pess_parse.
+
+Theorem C05_gem_pess :
+  forall (t : list N) (v : bytes),
+  t <> [] ->
+  Gem.VersionFacts.small t ->
+  Gem.RangeFacts.self_ok v = true ->
+  Forall (fun x : Z => (0 <= x)%Z) (Gem.Range.numeric_of v) ->
+  Gem.Range.r_contains Gem.RangeFacts.self_ok Gem.RangeFacts.self_cmp
+    (Gem.Range.pess ++ Gem.VersionFacts.dots t) v =
+  Some
+    (negb (Gem.RangeFacts.is_lt (Gem.RangeFacts.self_cmp v (Gem.VersionFacts.dots t))) &&
+     Gem.RangeFacts.is_lt (Gem.RangeFacts.zcmp (Gem.Range.numeric_of v) (Gem.RangeFacts.bump t))).
+Proof. exact Gem.RangeFacts.gem_c05. Qed.
+Print Assumptions C05_gem_pess.
+
+Theorem C05_gem_tuples :
+  forall t u : list N,
+  t <> [] ->
+  u <> [] ->
+  Gem.VersionFacts.small t ->
+  Gem.VersionFacts.small u ->
+  Gem.VersionFacts.small (Gem.RangeFacts.bumpN t) ->
+  Gem.Range.r_contains Gem.RangeFacts.self_ok Gem.RangeFacts.self_cmp
+    (Gem.Range.pess ++ Gem.VersionFacts.dots t) (Gem.VersionFacts.dots u) =
+  Some
+    (negb
+       (Gem.RangeFacts.is_lt
+          (Gem.RangeFacts.self_cmp (Gem.VersionFacts.dots u) (Gem.VersionFacts.dots t))) &&
+     Gem.RangeFacts.is_lt
+       (Gem.RangeFacts.self_cmp (Gem.VersionFacts.dots u)
+          (Gem.VersionFacts.dots (Gem.RangeFacts.bumpN t)))).
+Proof. exact Gem.RangeFacts.gem_c05_tuples. Qed.
+Print Assumptions C05_gem_tuples.
+
+Theorem C05_gem_base :
+  forall t : list N,
+  t <> [] ->
+  Gem.VersionFacts.small t ->
+  Gem.VersionFacts.small (Gem.RangeFacts.bumpN t) ->
+  Gem.Range.r_contains Gem.RangeFacts.self_ok Gem.RangeFacts.self_cmp
+    (Gem.Range.pess ++ Gem.VersionFacts.dots t) (Gem.VersionFacts.dots t) = 
+  Some true.
+Proof. exact Gem.RangeFacts.gem_c05_base. Qed.
+Print Assumptions C05_gem_base.
+
+Theorem C05_gem_pess_interval :
+  forall (j : nat) (nv t : list Z),
+  Forall (fun x : Z => (0 <= x)%Z) nv ->
+  Gem.RangeFacts.zcmp nv t <> Lt ->
+  Gem.Range.prefix_eq (S j) nv t = true <-> Gem.RangeFacts.zcmp nv (Gem.RangeFacts.bump_at j t) = Lt.
+Proof. exact Gem.RangeFacts.pess_interval. Qed.
+Print Assumptions C05_gem_pess_interval.
+
+Theorem C05_gem_pess_examples :
+  Gem.Range.r_contains Gem.RangeFacts.self_ok Gem.RangeFacts.self_cmp
+    $"~> 1.2.3" $"1.2.9" = 
+  Some true /\
+  Gem.Range.r_contains Gem.RangeFacts.self_ok Gem.RangeFacts.self_cmp
+    $"~> 1.2.3" $"1.3.0" = 
+  Some false /\
+  Gem.Range.r_contains Gem.RangeFacts.self_ok Gem.RangeFacts.self_cmp
+    $"~> 1.2" $"1.9" = 
+  Some true /\
+  Gem.Range.r_contains Gem.RangeFacts.self_ok Gem.RangeFacts.self_cmp
+    $"~> 1" $"1.9" = Some true /\
+  Gem.Range.r_contains Gem.RangeFacts.self_ok Gem.RangeFacts.self_cmp
+    $"~> 1" $"2.0" = Some false /\
+  Gem.Range.r_contains Gem.RangeFacts.self_ok Gem.RangeFacts.self_cmp
+    $"~> 1.0.0-alpha" $"1.0.5" = 
+  Some false /\
+  Gem.Range.r_contains Gem.RangeFacts.self_ok Gem.RangeFacts.self_cmp
+    $"~> 1.0.0-alpha" $"1.0.0" = 
+  Some true /\
+  Gem.Range.r_contains Gem.RangeFacts.self_ok Gem.RangeFacts.self_cmp
+    $"~> 1.0.rc1" $"1.1" = 
+  Some false.
+Proof. exact Gem.RangeFacts.pess_examples. Qed.
+Print Assumptions C05_gem_pess_examples.
+
+Theorem C05_gem_pess_excludes_prerelease_of_bump :
+  Gem.RangeFacts.self_cmp $"2.rc1" $"1.2" = Gt /\
+  Gem.RangeFacts.self_cmp $"2.rc1" $"2" = Lt /\
+  Gem.Range.r_contains Gem.RangeFacts.self_ok Gem.RangeFacts.self_cmp
+    $"~> 1.2" $"2.rc1" = 
+  Some false.
+Proof. exact Gem.RangeFacts.pess_excludes_prerelease_of_bump. Qed.
+Print Assumptions C05_gem_pess_excludes_prerelease_of_bump.
+
+Theorem C05_gem_finding_pess_prerelease_bound :
+  Gem.Range.r_contains Gem.RangeFacts.self_ok Gem.RangeFacts.self_cmp
+    $"~> 1.0.0-alpha" $"1.0.5" = 
+  Some false /\
+  Gem.Range.r_contains Gem.RangeFacts.self_ok Gem.RangeFacts.self_cmp
+    $"~> 1.0.rc1" $"1.0.5" = 
+  Some false /\
+  Gem.Range.r_contains Gem.RangeFacts.self_ok Gem.RangeFacts.self_cmp
+    $"~> 1.0.rc1" $"1.1" = 
+  Some false /\
+  Gem.Range.r_contains Gem.RangeFacts.self_ok Gem.RangeFacts.self_cmp
+    $"~> 1.0.rc1" $"1.0" = 
+  Some true.
+Proof. exact Gem.RangeFacts.finding_pess_prerelease_bound. Qed.
+Print Assumptions C05_gem_finding_pess_prerelease_bound.
 
 (* hex *)
 
@@ -1269,5 +1401,4 @@ Print Assumptions C05_maven_bare.
 (* TODO, not proved (parts of a pair; every listed ecosystem has theorems above):
    - npm: hyphen ranges with partial bounds ("1 - 2.3"), x-ranges written X.x.x or as a bare X;
    - composer: ~ and ^ with a pre-release suffix in the base; ranges with stability flags;
-   - conan: ~ and ^ with non-numeric parts or pre-releases in base or probe;
-   - gem: model not merged. *)
+   - conan: ~ and ^ with non-numeric parts or pre-releases in base or probe. *)
